@@ -22,10 +22,12 @@ HARNESSES = [
     {"name": "main", "src": "harness.cpp", "compiler": _PCXX,
      "flags": _COMMON + ["-DC19_TIER='q'", "-DC19_TABLEBASE=inst_quick", "-DC19_NPARTS=%d" % gt.NPARTS["inst_quick"]]},
     # the same harness, a small table, built with -fsanitize=signed-integer-overflow and trap-on-error: a trap
-    # (SIGILL) inside a case is caught and reported as the impl outcome `ub` (tier letter u)
+    # (SIGILL) inside a case is caught and reported as the impl outcome `ub` (tier letter u); also AddressSanitizer
+    # (heap/stack overflow, use after scope/return): a report ends the child, the case reads `crash 6`
     {"name": "ub", "src": "harness.cpp", "compiler": _PCXX,
      "flags": _COMMON + ["-DC19_TIER='u'", "-DC19_TABLEBASE=inst_ub", "-DC19_NPARTS=%d" % gt.NPARTS["inst_ub"],
-                         "-DC19_UBTRAP=1", "-fsanitize=signed-integer-overflow", "-fsanitize-undefined-trap-on-error"]},
+                         "-DC19_UBTRAP=1", "-fsanitize=signed-integer-overflow", "-fsanitize-undefined-trap-on-error",
+                         "-fsanitize=address", "-fno-omit-frame-pointer"]},
     {"name": "wide", "src": "harness.cpp", "compiler": _PCXX, "thorough_only": True,
      "flags": _COMMON + ["-DC19_TIER='t'", "-DC19_TABLEBASE=inst_thorough",
                          "-DC19_NPARTS=%d" % gt.NPARTS["inst_thorough"]]},
@@ -344,6 +346,15 @@ def gen(tier, rng):
         out.append("subext q %s ; %s %s" % (k, lst([5 + j for j in range(nd)]), lst([1 for _ in xs])))
     # span
     span_cases(out, q, rng)
+    # the quick cases of the instantiations that also exist in the sanitizer build run a second time there
+    ukeys = gt.ub_table().keys()
+    dup = []
+    for c in out:
+        toks = c.split(" ")
+        if len(toks) > 2 and toks[1] == "q" and ";" in toks:
+            if " ".join(toks[2:toks.index(";")]) in ukeys:
+                dup.append(" ".join([toks[0], "u"] + toks[2:]))
+    out.extend(dup)
     # signed overflow in operator(): model outcome `ub` against the trap of the instrumented build
     ub_cases(out, rng)
     if not quick:
